@@ -648,6 +648,11 @@ def plan_C16(c):
     c.mc('MC_Knuth', cfg='MC_Knuth_ok' if c.tier == 'quick' else 'MC_Knuth_ok_w4')
     c.mc('MC_Knuth', cfg='MC_Knuth_f1', expect='violation')     # the sign fix-up of finding F1 must be rejected
     c.mc('MC_Knuth', cfg='MC_Knuth_mul_carry', expect='violation')      # u128_mul_u128 without the middle carry must be rejected
+    if c.tier != 'quick':
+        # unbounded in the dividend: the sign fix-up of the floor division for every integer n (Apalache); the pre-fix variant (finding F1) is rejected
+        c.apalache('AP_FloorFix', 'FloorOk')
+        c.apalache('AP_FloorFix', 'FloorOk', expect='violation',
+                   mutate=('ELSE IF r0 = 0 THEN <<0 - q0, 0>> ELSE <<0 - q0 - 1, m - r0>>', 'ELSE <<0 - q0 - 1, m - r0>>'))
     g_maxquot(c, 'wide')
     g_knuth(c, 'wide')
     v(c, 'c16', 4000, 120000)
